@@ -182,24 +182,34 @@ class RealFloat(numbers.Rational):
             return hash(q)
 
     def __eq__(self, other):
+        # defer to the other operand for types this class does not know,
+        # e.g., `Float`, which compares itself against a `RealFloat`
         if not isinstance(other, RealFloat | int | float | Fraction):
-            return False
+            return NotImplemented
         ord = self.compare(other)
         return ord == Ordering.EQUAL
 
     def __lt__(self, other):
+        if not isinstance(other, RealFloat | int | float | Fraction):
+            return NotImplemented
         ord = self.compare(other)
         return ord == Ordering.LESS
 
     def __le__(self, other):
+        if not isinstance(other, RealFloat | int | float | Fraction):
+            return NotImplemented
         ord = self.compare(other)
         return ord == Ordering.LESS or ord == Ordering.EQUAL
 
     def __gt__(self, other):
+        if not isinstance(other, RealFloat | int | float | Fraction):
+            return NotImplemented
         ord = self.compare(other)
         return ord == Ordering.GREATER
 
     def __ge__(self, other):
+        if not isinstance(other, RealFloat | int | float | Fraction):
+            return NotImplemented
         ord = self.compare(other)
         return ord == Ordering.GREATER or ord == Ordering.EQUAL
 
@@ -252,7 +262,8 @@ class RealFloat(numbers.Rational):
             case Fraction():
                 other = RealFloat.from_rational(other)
             case _:
-                raise TypeError(f'unsupported operand type(s) for +: \'RealFloat\' and \'{type(other)}\'')
+                # defer to the other operand (e.g., `Float.__radd__`)
+                return NotImplemented
 
         if self._c == 0:
             if other._c == 0:
@@ -358,7 +369,8 @@ class RealFloat(numbers.Rational):
             case Fraction():
                 other = RealFloat.from_rational(other)
             case _:
-                raise TypeError(f'unsupported operand type(s) for +: \'RealFloat\' and \'{type(other)}\'')
+                # defer to the other operand (e.g., `Float.__rmul__`)
+                return NotImplemented
 
         s = self._s != other._s
         if self._c == 0 or other._c == 0:
